@@ -1,7 +1,6 @@
 SPECIFICATION Spec
-CONSTANTS MaxTok = 4 MaxDepth = 3
-  Leaves <- LeavesMin
-  RootKinds <- SeqRoots
+CONSTANTS MaxDepth = 3
+  Families <- FamAlias
   StoreByCopy = FALSE
   TailKeepsSets = TRUE
 INVARIANT SeenIsExpected
